@@ -9,6 +9,22 @@ VERIF = Path(__file__).resolve().parent.parent
 
 # id -> (category, technique, level text, level note, design ref, engine)
 CHECKS = {
+    "C02": (
+        "exploration",
+        "property-based testing (Hypothesis): metamorphic relation 'signature-neutral edit => same identifier' over generated configuration graphs, edits applied as data, guarded by an independent reference signature",
+        "Generated graphs are rebuilt after 1-3 documented-neutral edits (explicit default, optional None, Meta/Option/Path values, meta-flagged members inserted/changed in lists and dicts, tags, dependencies), on class variants extended with defaulted/Meta/generated parameters, and with another launcher, workspace and run mode; every node whose reference signature is unchanged must keep its identifier.",
+        "Trusted: reference signature and edit library (vlib/blueprint.py, vlib/edits.py); whether pre-tasks reached only through an ignored position count is undocumented and never asserted.",
+        "DESIGN.md section 3, C02",
+        "blueprints",
+    ),
+    "C03": (
+        "exploration",
+        "property-based testing (Hypothesis): injectivity of the identifier against an independent reference signature, on pairs one or two structural edits apart plus a run-wide identifier table",
+        "Generated pairs (x, edit(x)) one or two signature-changing structural edits apart (moves between neighbouring containers, renames, swaps, sibling moves, scalar/enum/type/constant changes, producer, pre/init-task changes) and a run-wide table identifier -> reference signature: any identifier reached with two different reference signatures is reported with a root-cause signature; two listed known findings are recognised by that signature.",
+        "Trusted: the reference signature written from the documentation; the stated domain (no control characters, dicts <= 2 levels).",
+        "DESIGN.md section 3, C03",
+        "blueprints",
+    ),
     "C01": (
         "exploration",
         "property-based testing (Hypothesis): metamorphic build/seal/request-order variants of generated configuration graphs, cross-process differential under other PYTHONHASHSEED values, replay of golden identifiers, reference-signature equality",
